@@ -300,7 +300,7 @@ pub fn child(args: &[String]) -> i32 {
 				match probe_parse(&text, o) {
 					Ok(r) => out.push(json!({
 						"ok": r.ok, "pulled": r.pulled, "spread": r.spread, "fragments": r.fragments, "traversed": r.traversed,
-						"chars": text.len(),
+						"chars": text.chars().count(),
 					})),
 					Err(p) => out.push(json!({"panic": p})),
 				}
@@ -459,7 +459,7 @@ fn deep_jobs(cfg: &Config, total: &mut Report, thorough: bool) {
 							rep.count("acceptance_differs_from_reference(noted, decided by C01)", 1);
 						}
 					}
-					if i % 9 == 0 {
+					if i % 13 == 0 {
 						rep.sample(json!({"family": "deep", "kind": format!("{:?}", kind), "depth": depth, "stack_bytes": SMALL_STACK, "child": j}));
 					}
 				} else {
@@ -639,7 +639,7 @@ pub fn run(cfg: &Config) -> i32 {
 		cfg,
 		EvidenceMeta {
 			id: "C03",
-			rule: "every input is parsed under all four option values with panics captured; text inputs additionally go through a character source that counts pulls and records the stack address at each pull, then Value::traverse is driven to completion; deep documents (14 shapes x depths 10^3..10^6, thorough 2*10^6) are parsed, traversed and dismantled in 64 KiB threads inside child processes whose exit status is inspected; non-trivial = non-empty input; random/generated inputs counted by hash, deep documents and corpus edits by construction",
+			rule: "every input is parsed under all four option values with panics captured; text inputs additionally go through a character source that counts pulls and records the stack address at each pull, then Value::traverse is driven to completion; deep documents (14 nested shapes and 12 flat shapes - one lexical element such as a blank, an escape, a digit, an item or an entry repeated that many times - x depths 10^3..10^6, thorough 2*10^6) are parsed, traversed and dismantled in 64 KiB threads inside child processes whose exit status is inspected; non-trivial = non-empty input; random/generated inputs counted by hash, deep documents and corpus edits by construction",
 			exhaustive: false,
 			assumptions: vec![
 				"dropping a returned deeply nested Value is the caller's business and is done iteratively by the harness; what the parser itself drops (partial values on error paths) is part of the observation".into(),
